@@ -191,6 +191,13 @@ def gen_cfg(rng, prop, tier):
                 if rng.random() < 0.35:
                     cfg["classes"][i] = "HSym"
                     cfg["targets"][i] = rng.randrange(i)
+        if rng.random() < (0.02 if tier == "thorough" else 0.01):
+            # a larger universe: query results with dozens of nodes
+            n = rng.randint(36, 70)
+            cfg["classes"] = [base] * n
+            cfg["targets"] = [None] * n
+            cfg["init_parents"] = struct.gen_init_forest(rng, n, True)
+            cfg["L"] = rng.randint(1, 4)
         cfg["allow_nn"] = cfg["family"] == "node" and rng.random() < 0.4
         k = rng.choice((1, 1, 2, 3, 5, len(ADV_METHODS)))
         adv = {}
@@ -204,8 +211,10 @@ def gen_cfg(rng, prop, tier):
         cfg["p_fault"] = 0.3 if cfg["profile"] != "none" else 0.0
     cfg["q_rate"] = rng.choice((0.0, 0.15, 0.3, 1.0))
     cfg["q_heavy"] = rng.random() < 0.6
-    if tier == "quick" and len(cfg["classes"]) > 8:
+    if tier == "quick" and 8 < len(cfg["classes"]) < 30:
         cfg["q_heavy"] = False
+    if len(cfg["classes"]) >= 30:
+        cfg["q_heavy"] = True
     return cfg
 
 
